@@ -53,6 +53,10 @@ pub struct Case {
     pub capi: bool,
     pub proc_state: ProcState,
     pub unprivileged: bool,
+    /// the calling thread has its own descriptor table (unshare(CLONE_FILES)) and the
+    /// thread-group leader has a different file at the handle's descriptor number
+    #[serde(default)]
+    pub private_fdtable: bool,
 }
 
 pub fn rflags() -> impl Strategy<Value = i32> {
@@ -90,8 +94,9 @@ pub fn strategy() -> impl Strategy<Value = Case> {
         prop_oneof![3 => Just(false), 1 => Just(true)],
         prop_oneof![3 => Just(ProcState::Normal), 2 => (0u8..8).prop_map(ProcState::OverMounted)],
         prop_oneof![3 => Just(false), 1 => Just(true)],
+        prop_oneof![3 => Just(false), 1 => Just(true)],
     )
-        .prop_map(|(kcfg, kind, flags, fdnum, history, capi, proc_state, unprivileged)| Case { kcfg, kind, flags, fdnum, history, capi, proc_state, unprivileged })
+        .prop_map(|(kcfg, kind, flags, fdnum, history, capi, proc_state, unprivileged, private_fdtable)| Case { kcfg, kind, flags, fdnum, history, capi, proc_state, unprivileged, private_fdtable })
 }
 
 #[derive(Clone, Debug, Serialize, Deserialize)]
@@ -289,7 +294,16 @@ pub fn child(case: &Case) -> Report {
         }
     }
     // the library call, on a worker thread with the kcfg filter
+    let decoy = openat_raw(libc::AT_FDCWD, sb.outside().join("secret.f").as_os_str().as_encoded_bytes(), libc::O_PATH, 0).unwrap_or(-1);
     let (out, same, private) = with_session(case.kcfg, None, |s| {
+        if case.private_fdtable && hfd >= 0 && decoy >= 0 {
+            // the library's thread gets a copy of the table; afterwards the leader's
+            // entry at the handle's number is replaced by a decoy
+            let r = s.run(|_wg, _st| unsafe { libc::unshare(libc::CLONE_FILES) });
+            if r == 0 {
+                unsafe { libc::dup3(decoy, hfd, libc::O_CLOEXEC) };
+            }
+        }
         s.run(|_wg, _st| {
             let private = {
                 // does this process get a private procfs? (diagnostic only)
@@ -357,6 +371,9 @@ pub fn judge(case: &Case, rep: &Report, stats: &mut Stats) -> Result<(), Fail> {
     stats.class(&format!("outcome:{}", rep.out.class()));
     stats.class(&format!("proc:{}", match case.proc_state { ProcState::Normal => "normal", _ => "over-mounted" }));
     stats.class(if case.unprivileged { "caller:unprivileged" } else { "caller:root" });
+    if case.private_fdtable {
+        stats.class("caller:thread-with-private-descriptor-table");
+    }
     stats.class(if rep.private_procfs { "procfs:private-possible" } else { "procfs:host-only" });
     let over = matches!(case.proc_state, ProcState::OverMounted(_));
     if !case.history.is_empty() || (0..=2).contains(&case.fdnum) || over || has_create(case.flags) {
@@ -368,7 +385,7 @@ pub fn judge(case: &Case, rep: &Report, stats: &mut Stats) -> Result<(), Fail> {
         Fail::Violation(Violation {
             check: "reopen".into(),
             signature: sig,
-            message: format!("reopen of a {:?} handle living at descriptor {} with flags 0x{:x}{} (kcfg {}, {}, /proc {:?})\n  history: {:?}\n  mounts: {:?}\n  kernel reference (open through the fd link on a pristine procfs): {}\n  library: {} (same inode: {:?})\n  {}", case.kind, case.fdnum, case.flags, if case.capi { " [C]" } else { "" }, case.kcfg.name(), if case.unprivileged { "unprivileged" } else { "root" }, case.proc_state, rep.history_applied, rep.mounts, rep.reference, rep.out.brief(), rep.same_inode, msg),
+            message: format!("reopen of a {:?} handle living at descriptor {} with flags 0x{:x}{} (kcfg {}, {}{}, /proc {:?})\n  history: {:?}\n  mounts: {:?}\n  kernel reference (open through the fd link on a pristine procfs): {}\n  library: {} (same inode: {:?})\n  {}", case.kind, case.fdnum, case.flags, if case.capi { " [C]" } else { "" }, case.kcfg.name(), if case.unprivileged { "unprivileged" } else { "root" }, if case.private_fdtable { ", thread with its own descriptor table (leader has a decoy at that number)" } else { "" }, case.proc_state, rep.history_applied, rep.mounts, rep.reference, rep.out.brief(), rep.same_inode, msg),
             case: serde_json::to_value(case).unwrap(),
         })
     };
@@ -479,7 +496,7 @@ fn replay(_ctx: &Ctx, _check: &str, case: &Value) -> Result<(), Fail> {
 pub const PROP: Prop = Prop {
     id: "C09",
     level: "exploration",
-    rule: "inode type {file, dir, fifo, chr, symlink} x open flags (access mode x {APPEND, NOATIME, DIRECTORY, NOFOLLOW, CLOEXEC, SYNC, TRUNC, PATH} and the creation flags O_CREAT/O_EXCL/O_TMPFILE) x the descriptor number the handle lives at {0,1,2,3,7,255,1023, invalid} x history of 0-4 rename / rename-parent / replace-by-file/dir/link-to-decoy / unlink / rename-back operations applied to the handle's path before reopening x host /proc state {normal; private mount namespace with tmpfs or bind mounts over /proc/<pid>/fd, the fd magic-link itself, /proc/<pid>/task, /proc/<pid>} x caller {root; uid 65534 without capabilities} x kernel configuration x {Handle::reopen, pathrs_reopen}. Oracle: a successful reopen has the handle's (dev,ino) -- never the impostor at the old name, never an over-mounted object; symlink handles => ELOOP; creation flags => error and no new directory entry; otherwise outcome, errno and F_GETFL equal the kernel's own open of the same inode with the same flags through the fd link of a pristine procfs; close-on-exec; callers that cannot get a private procfs may only get errors from over-mounts. non-trivial = non-empty history, fd in {0,1,2}, over-mounted /proc, or creation flags; distinct by the whole case",
+    rule: "inode type {file, dir, fifo, chr, symlink} x open flags (access mode x {APPEND, NOATIME, DIRECTORY, NOFOLLOW, CLOEXEC, SYNC, TRUNC, PATH} and the creation flags O_CREAT/O_EXCL/O_TMPFILE) x the descriptor number the handle lives at {0,1,2,3,7,255,1023, invalid} x calling thread {shares the process's descriptor table; has its own after unshare(CLONE_FILES) while the thread-group leader holds a decoy at the same number} x history of 0-4 rename / rename-parent / replace-by-file/dir/link-to-decoy / unlink / rename-back operations applied to the handle's path before reopening x host /proc state {normal; private mount namespace with tmpfs or bind mounts over /proc/<pid>/fd, the fd magic-link itself, /proc/<pid>/task, /proc/<pid>} x caller {root; uid 65534 without capabilities} x kernel configuration x {Handle::reopen, pathrs_reopen}. Oracle: a successful reopen has the handle's (dev,ino) -- never the impostor at the old name, never an over-mounted object; symlink handles => ELOOP; creation flags => error and no new directory entry; otherwise outcome, errno and F_GETFL equal the kernel's own open of the same inode with the same flags through the fd link of a pristine procfs; close-on-exec; callers that cannot get a private procfs may only get errors from over-mounts. non-trivial = non-empty history, fd in {0,1,2}, over-mounted /proc, or creation flags; distinct by the whole case",
     assumptions: &["the handle is created by the harness (O_PATH|O_NOFOLLOW open moved to the requested descriptor number) and wrapped with Handle::from_fd", "whether over-mounts are visible is decided from whether the caller can create a private procfs (fsopen/open_tree probe) and the kernel configuration"],
     lanes: |_| 16,
     run_lane,
